@@ -43,6 +43,7 @@ class _Draws:
         # split: {"rngK": ["eq", v] | ["notin", [v...]]} restricts a draw so that several jobs partition the executions
         self.split = split or {}
         self.n = 0
+        self.n_unit = 0
         self.script = script
         self.max_draws = max_draws
         self.log: list = []
@@ -64,6 +65,12 @@ class _Draws:
             v = int(self.script.get(name, lo))
             if not lo <= v <= hi_incl:
                 v = min(max(v, lo), hi_incl)
+            if exclude and v in exclude:
+                # sampling without replacement never repeats a value in the real library either
+                rest = [x for x in range(lo, hi_incl + 1) if x not in exclude]
+                if not rest:
+                    raise ValueError("Cannot take a larger sample than population when 'replace=False'")
+                v = rest[0]
             self.log.append((name, kind, v))
             return v
         if lo > hi_incl:
@@ -71,7 +78,7 @@ class _Draws:
         # a fresh draw from a finite range: every value is feasible by construction, so the fork needs
         # no solver query; the chosen value is still recorded as input rng<k> for counterexamples
         vals = list(range(lo, hi_incl + 1))
-        if name in self.split:
+        if name in self.split and self.split[name][0] in ("eq", "notin"):
             kind_, val = self.split[name]
             vals = [v for v in vals if (v == val if kind_ == "eq" else v not in val)]
         if exclude:
@@ -94,6 +101,13 @@ class _Draws:
             if v >= 1.0:
                 v = math.nextafter(1.0, 0.0)
             self.log.append((name, "unit", v))
+            return v
+        uk = f"unit{self.n_unit}"  # ordinal among the real-valued draws, whatever integer draws came before
+        self.n_unit += 1
+        if uk in self.split:
+            # this instance fixes the draw (sibling instances / other seeds cover other values): recorded as an input all the same
+            v = float(self.split[uk][1])
+            cur().inputs[name] = z3.RealVal(repr(v))
             return v
         return fresh_real(name, 0, 1)
 
